@@ -75,6 +75,25 @@ def opIdx : P (List String) := do
         kv "mpos" (showNats mpos.toList), kv "dpos" (showNats dpos.toList),
         kv "size" (toString (R * C * T))]
 
+/-- `idxr kind R C T R2 C2 T2` — `resize` gives a zero tensor of the new shape (tensor.hpp:117-125);
+positions of the in-range elements in the new layout -/
+def opIdxr : P (List String) := do
+  let kind ← tok
+  let _R ← nat; let _C ← nat; let _T ← nat
+  let R2 ← nat; let C2 ← nat; let T2 ← nat
+  let (R, C, T) := match kind with
+    | "t" => (R2, C2, T2)
+    | "m" => (R2, C2, 1)
+    | "s" => (R2, R2, T2)
+    | _ => (R2, 1, T2)
+  let t : Tens Float := Tens.zeros R C T
+  let mut pos : Array Nat := #[]
+  for i in [0:R] do
+    for j in [0:C] do
+      for a in [0:T] do
+        pos := pos.push (Gen.getIndexSrc t.R t.C t.T i j a)
+  pure [kv "pos" (showNats pos.toList), kv "dims" s!"{t.R},{t.C},{t.T}", kv "size" (toString t.size)]
+
 def netFields (n : Net String) : List String := Id.run do
   let mut out : Array String := #[]
   out := out.push (kv "N" (toString n.nV))
@@ -228,6 +247,7 @@ def runLine (line : String) : String :=
   let op := toks[1]!
   let p : P (List String) := match op with
     | "idx" => opIdx
+    | "idxr" => opIdxr
     | "net" => opNet
     | "sweep" => opSweep
     | "run" => opRun
@@ -237,6 +257,7 @@ def runLine (line : String) : String :=
     | "readaff" => Cli.opReadAff
     | "waff" => Cli.opWaff
     | "wmem" => Cli.opWmem
+    | "winfo" => Cli.opWinfo
     | "cli" => Cli.opCli
     | _ => throw s!"unknown op {op}"
   match p.run { toks, pos := 2 } with
